@@ -1461,10 +1461,120 @@ func (g *gen) probeHost() *probe {
 
 var forms = []string{"direct", "method-value", "method-expr", "interface", "assertion", "type-switch", "host"}
 
+// probeComposed passes a value to io.Copy which implements io.Reader (or
+// io.Writer) and possibly io.WriterTo (io.ReaderFrom): compiled code probes the
+// optional interface, which the interpreter serves through a composed wrapper.
+// The required method is declared by the type, promoted from an embedded
+// interpreted struct, from an embedded host interface (io.Reader, io.Writer) or
+// from an embedded pointer to a host struct (*strings.Reader, *bytes.Buffer);
+// the optional method is declared by the type, promoted from an embedded
+// interpreted struct, or absent.
+func (g *gen) probeComposed() *probe {
+	p := g.newProbe("composed")
+	p.Nontrivial = true
+	side := []string{"reader", "writer"}[g.pick(2, "cw-side")]
+	base := []string{"own", "emb-src", "emb-host-iface", "emb-host-ptr"}[g.pick(4, "cw-base")]
+	extra := []string{"own", "emb-src", "none"}[g.pick(3, "cw-extra")]
+	ptr := g.chance(50, "cw-ptr")
+	p.feat("cw:"+side, "cw-base:"+base, "cw-extra:"+extra)
+	n := fmt.Sprintf("CW%d", p.ID)
+	tag := p.tag()
+	var d strings.Builder
+	var fields, lit []string
+	if side == "reader" {
+		switch base {
+		case "own":
+			fields = append(fields, "s string", "pos *int")
+			lit = append(lit, "s: \"data-own\"", "pos: new(int)")
+			fmt.Fprintf(&d, "func (r %s) Read(b []byte) (int, error) {\n\tif *r.pos >= len(r.s) {\n\t\treturn 0, io.EOF\n\t}\n\tk := copy(b, r.s[*r.pos:])\n\t*r.pos += k\n\treturn k, nil\n}\n\n", n)
+		case "emb-src":
+			fmt.Fprintf(&d, "type %sIn struct {\n\ts string\n\tpos *int\n}\n\nfunc (r %sIn) Read(b []byte) (int, error) {\n\tif *r.pos >= len(r.s) {\n\t\treturn 0, io.EOF\n\t}\n\tk := copy(b, r.s[*r.pos:])\n\t*r.pos += k\n\treturn k, nil\n}\n\n", n, n)
+			fields = append(fields, n+"In")
+			lit = append(lit, fmt.Sprintf("%sIn: %sIn{s: \"data-emb\", pos: new(int)}", n, n))
+		case "emb-host-iface":
+			fields = append(fields, "io.Reader")
+			lit = append(lit, "Reader: strings.NewReader(\"data-iface\")")
+		default:
+			fields = append(fields, "*strings.Reader")
+			lit = append(lit, "Reader: strings.NewReader(\"data-hostptr\")")
+		}
+		switch extra {
+		case "own":
+			fmt.Fprintf(&d, "func (r %s) WriteTo(w io.Writer) (int64, error) {\n\tk, err := io.WriteString(w, \"WT-%s\")\n\treturn int64(k), err\n}\n\n", n, tag)
+		case "emb-src":
+			fmt.Fprintf(&d, "type %sX struct{ m string }\n\nfunc (x %sX) WriteTo(w io.Writer) (int64, error) {\n\tk, err := io.WriteString(w, x.m)\n\treturn int64(k), err\n}\n\n", n, n)
+			fields = append(fields, n+"X")
+			lit = append(lit, fmt.Sprintf("%sX: %sX{\"WTX-%s\"}", n, n, tag))
+		}
+	} else {
+		switch base {
+		case "own":
+			fields = append(fields, "got *[]string")
+			lit = append(lit, "got: new([]string)")
+			fmt.Fprintf(&d, "func (w %s) Write(b []byte) (int, error) {\n\t*w.got = append(*w.got, string(b))\n\treturn len(b), nil\n}\n\n", n)
+		case "emb-src":
+			fmt.Fprintf(&d, "type %sIn struct{ got *[]string }\n\nfunc (w %sIn) Write(b []byte) (int, error) {\n\t*w.got = append(*w.got, string(b))\n\treturn len(b), nil\n}\n\n", n, n)
+			fields = append(fields, n+"In")
+			lit = append(lit, fmt.Sprintf("%sIn: %sIn{got: new([]string)}", n, n))
+		case "emb-host-iface":
+			fields = append(fields, "io.Writer", "buf *bytes.Buffer")
+		default:
+			fields = append(fields, "*bytes.Buffer")
+			lit = append(lit, "Buffer: &bytes.Buffer{}")
+		}
+		switch extra {
+		case "own":
+			fmt.Fprintf(&d, "func (w %s) ReadFrom(r io.Reader) (int64, error) {\n\tb, err := io.ReadAll(r)\n\tfmt.Println(\"RF-%s\", string(b))\n\treturn int64(len(b)), err\n}\n\n", n, tag)
+		case "emb-src":
+			fmt.Fprintf(&d, "type %sX struct{ m string }\n\nfunc (x %sX) ReadFrom(r io.Reader) (int64, error) {\n\tb, err := io.ReadAll(r)\n\tfmt.Println(x.m, string(b))\n\treturn int64(len(b)), err\n}\n\n", n, n)
+			fields = append(fields, n+"X")
+			lit = append(lit, fmt.Sprintf("%sX: %sX{\"RFX-%s\"}", n, n, tag))
+		}
+	}
+	decl := "type " + n + " struct {\n"
+	for _, f := range fields {
+		decl += "\t" + f + "\n"
+	}
+	decl += "}\n\n" + d.String()
+	p.Decls = append(p.Decls, decl)
+	val := "x"
+	if ptr {
+		val = "&x"
+		p.feat("cw:pointer")
+	}
+	if side == "writer" && base == "emb-host-iface" {
+		p.add("bb := &bytes.Buffer{}")
+		lit = append(lit, "Writer: bb", "buf: bb")
+	}
+	p.add("x := %s{%s}", n, strings.Join(lit, ", "))
+	if side == "reader" {
+		p.add("var buf bytes.Buffer")
+		p.add("k, err := io.Copy(&buf, %s)", val)
+		p.add("fmt.Println(%q, k, buf.String(), err == nil)", tag)
+		p.add("b2, err := io.ReadAll(%s)", val)
+		p.add("fmt.Println(%q, string(b2), err == nil)", tag)
+	} else {
+		p.add("k, err := io.Copy(%s, strings.NewReader(\"payload-%s\"))", val, tag)
+		p.add("fmt.Println(%q, k, err == nil)", tag)
+		switch base {
+		case "own":
+			p.add("fmt.Println(%q, *x.got)", tag)
+		case "emb-src":
+			p.add("fmt.Println(%q, *x.%sIn.got)", tag, n)
+		case "emb-host-iface":
+			p.add("fmt.Println(%q, x.buf.String())", tag)
+		default:
+			p.add("fmt.Println(%q, x.Buffer.String())", tag)
+		}
+		p.add("fmt.Fprintf(%s, \"%%d!\", 7)", val)
+	}
+	return p
+}
+
 // formDraw weights the forms: those that lose probes to known-finding
 // switches or that only count successful cases get a larger share.
 var formDraw = []string{"direct", "direct", "method-value", "method-value", "method-expr", "method-expr", "interface", "interface", "interface",
-	"assertion", "assertion", "assertion", "assertion", "assertion", "type-switch", "type-switch", "type-switch", "host", "host", "host"}
+	"assertion", "assertion", "assertion", "assertion", "assertion", "type-switch", "type-switch", "type-switch", "host", "host", "host", "composed", "composed"}
 
 // generate draws one program.
 func generate(t *rapid.T, off map[string]bool) (*program, map[string]int) {
@@ -1493,6 +1603,8 @@ func generate(t *rapid.T, off map[string]bool) (*program, map[string]int) {
 				p = g.probeTypeSwitch()
 			case "host":
 				p = g.probeHost()
+			case "composed":
+				p = g.probeComposed()
 			}
 			if p == nil {
 				continue
